@@ -369,7 +369,7 @@ class Verifier:
         init_env = dict(st.env)
         # records are mutable: old_<name> is the record as it was on entry (its fields then)
         for k0, v0 in list(init_env.items()):
-            if isinstance(v0, SObj):
+            if isinstance(v0, (SObj, dict)):
                 from .symexec import _clone
                 init_env['old_' + k0] = _clone(v0, {})      # deep: nested records as on entry
         # snapshot 'old' values of array inputs for frame postconditions
@@ -547,6 +547,13 @@ class Verifier:
                 tg = [stmt.target]
             if isinstance(stmt, ast.With):      # transparent context managers (st_With)
                 return any(assigns(x, name) for x in stmt.body)
+            if isinstance(stmt, ast.Try) and name == first:
+                # a block may start at a try whose body makes the first assignment -- when the
+                # block ends after the try (a block that lies wholly inside the try body is
+                # anchored there, not at the try)
+                inner = [y for y in ast.walk(stmt) if isinstance(y, ast.stmt) and y is not stmt]
+                return any(assigns(x, name) for x in stmt.body) and \
+                    not any(assigns(y, last) for y in inner if not isinstance(y, ast.Try))
             if isinstance(stmt, ast.Expr) and isinstance(stmt.value, ast.Call) \
                     and isinstance(stmt.value.func, ast.Attribute) \
                     and stmt.value.func.attr in ('append', 'extend') \
